@@ -16,6 +16,7 @@ mod h_c10;
 mod h_c12;
 mod h_c17;
 mod h_dom;
+mod h_exp;
 mod h_fault;
 mod h_ffi;
 mod h_proc;
@@ -40,6 +41,8 @@ fn harnesses() -> Vec<Box<dyn Harness>> {
         Box::new(h_ps::PubSubHarness { ipc: true, prop: "C02" }),
         Box::new(h_thr::PubSubThreads { prop: "C01", ipc: false }),
         Box::new(h_fault::FaultHarness { prop: "C01", ipc: true }),
+        Box::new(h_exp::ExpiredConnHarness { prop: "C01", ipc: true }),
+        Box::new(h_exp::ExpiredConnHarness { prop: "C01", ipc: false }),
         Box::new(h_thr::PubSubThreads { prop: "C02", ipc: false }),
         Box::new(h_zc::ConnDataHarness { prop: "C02" }),
         Box::new(h_c03::QueueHarness { kind: "iq" }),
@@ -82,6 +85,7 @@ fn harnesses() -> Vec<Box<dyn Harness>> {
         Box::new(h_ffi::FfiHarness { ipc: true }),
         Box::new(h_c17::ShutdownHarness { ipc: false }),
         Box::new(h_c17::ShutdownHarness { ipc: true }),
+        Box::new(h_exp::ExpiredConnHarness { prop: "C17", ipc: true }),
         Box::new(h_ws::WaitSetHarness { ipc: false }),
         Box::new(h_ws::WaitSetHarness { ipc: true }),
     ]
